@@ -341,3 +341,28 @@ func GoodEntryPathElementTest(dir, name string) (string, bool) {
 	}
 	return filepath.Join(dir, rel), true
 }
+
+var sharedCopyBuffer = make([]byte, 32*1024)
+
+// BadCopyThroughPackageBuffer copies through a buffer every caller in the process shares.
+func BadCopyThroughPackageBuffer(dst func([]byte), src func([]byte) int) {
+	for {
+		n := src(sharedCopyBuffer)
+		if n == 0 {
+			return
+		}
+		dst(sharedCopyBuffer[:n])
+	}
+}
+
+// GoodCopyThroughOwnBuffer allocates its buffer per call.
+func GoodCopyThroughOwnBuffer(dst func([]byte), src func([]byte) int) {
+	buf := make([]byte, 32*1024)
+	for {
+		n := src(buf)
+		if n == 0 {
+			return
+		}
+		dst(buf[:n])
+	}
+}
